@@ -153,6 +153,24 @@ def run_tampered(victim, pos, op, mode="delegate"):
     return w
 
 
+def accepted_manipulated(w, victim, orig, op):
+    """a peer message that was delivered only in manipulated form (bits, length, phase or side label changed) must not be
+    accepted: the plaintext of that phase must not reach the application"""
+    c = w.clients[victim]
+    if orig.get("side") == c.boss._side:
+        return None            # an echo of the victim's own message: nothing to accept
+    kind = op[0]
+    changed = kind in ("flip", "trunc", "extend", "drop") or (kind in ("phase", "side") and op[2] == "instead")
+    if not changed:
+        return None
+    ph = orig.get("phase")
+    if ph == "version" and any(k == "versions" for k, _ in c.app.obs):
+        return "peer's version message was delivered only as %r, yet the application got versions" % (op,)
+    if ph.isdigit() and len(msgs(c.app)) > int(ph):
+        return "peer's phase %s was delivered only as %r, yet the application received it" % (ph, op)
+    return None
+
+
 def judge(w, ref):
     out = []
     vers = [json.dumps(VA, sort_keys=True), json.dumps(VB, sort_keys=True)]
@@ -183,6 +201,9 @@ def _work(task):
     for op in ops:
         w = run_tampered(victim, pos, op)
         vs = judge(w, _REF)
+        am = accepted_manipulated(w, victim, _STREAM[victim][pos], op)
+        if am:
+            vs.append(dict(oracle="manipulated-accepted", sig="c%d" % victim, msg=am))
         effect = tuple(tuple(x for k, x in c.app.obs if k == "closed") for c in w.clients) + (
             tuple(len(msgs(c.app)) for c in w.clients),) + (tuple(e[0] for e in w.errors),)
         res.append((op, vs, effect))
@@ -190,10 +211,11 @@ def _work(task):
 
 
 _REF = None
+_STREAM = None
 
 
 def enumerate_tamper(chk):
-    global _REF
+    global _REF, _STREAM
     # reference (honest) run: learn the message stream per client
     stream = {0: [], 1: []}
 
@@ -206,6 +228,7 @@ def enumerate_tamper(chk):
         w.apply(w.enabled()[0])
     assert msgs(w.clients[0].app) == SENT[1] and msgs(w.clients[1].app) == SENT[0], "reference run incomplete"
     _REF = dict(verifier=[x for k, x in w.clients[0].app.obs if k == "verifier"][0])
+    _STREAM = stream
     sides = [c.boss._side for c in w.clients]
     own_pake = {ci: [m["body"] for m in stream[ci] if m["phase"] == "pake" and m["side"] == sides[ci]][0] for ci in (0, 1)}
     tasks = []
@@ -246,7 +269,11 @@ def enumerate_tamper(chk):
 # ---------------------------------------------------------------- schedules
 TOPS = [("flip", 30, 0), ("phase", "1", "also"), ("phase", "version", "instead"), ("side", "$own", "also"),
         ("side", "$peer", "also"), ("side+phase", "$peer", "1", "also"), ("inject", "$peer", "0", "random"),
-        ("inject", "$peer", "pake", "otherpw"), ("inject", "$peer", "pake", "own"), ("dup",)]
+        ("inject", "$peer", "pake", "otherpw"), ("inject", "$peer", "pake", "own"), ("dup",),
+        ("side", THIRD_SIDE, "instead"), ("phase", "0", "instead")]
+
+
+LABEL_OPS = [i for i, op in enumerate(TOPS) if op[0] in ("side", "phase") and op[-1] == "instead"]
 
 
 def extra_events(w):
@@ -257,6 +284,12 @@ def extra_events(w):
                     and c.conn.down[0].get("type") == "message":
                 for oi in range(len(TOPS)):
                     evs.append(("tamper", c.ci, oi))
+            # label manipulations may also hit a message further back in the queue (which a reordering server then sends first)
+            if c.ci in w.cfg["victims"] and c.conn and c.conn.open and not c.conn.stopping and w.cfg.get("reorder"):
+                for k in range(1, min(len(c.conn.down), 4)):
+                    if c.conn.down[k].get("type") == "message":
+                        for oi in LABEL_OPS:
+                            evs.append(("tamper", c.ci, oi, k))
     return evs
 
 
@@ -268,21 +301,48 @@ def extra_apply(w, ev):
     op = list(TOPS[ev[2]])
     own, peer = c.boss._side, w.clients[1 - c.ci].boss._side
     op = tuple(own if x == "$own" else peer if x == "$peer" else x for x in op)
-    m = c.conn.down.popleft()
+    k = ev[3] if len(ev) > 3 else 0
+    m = c.conn.down[k]
+    del c.conn.down[k]
     if op[0] == "flip" and len(m["body"]) // 2 <= op[1]:
         op = ("flip", 0, 0)
     own_pake = None
     for mm in c.delivered_msgs():
         if mm["phase"] == "pake" and mm["side"] == own:
             own_pake = mm["body"]
-    outs = apply_op(op, m, own_pake or opp())
+    honest = m.get("_orig") or {k: v for k, v in m.items() if k not in ("id", "_orig")}
+    base = {k: v for k, v in m.items() if k != "_orig"}
+    outs = apply_op(op, base, own_pake or opp())
+    for o in outs:
+        if o.get("side") == m.get("side") or o.get("phase") == m.get("phase") or o.get("body") == m.get("body"):
+            o["_orig"] = honest       # a (possibly manipulated) descendant of an honest message
     for o in reversed(outs):
-        c.conn.down.appendleft(o)
+        c.conn.down.insert(k, o)
     return True
 
 
 def post_init(w):
     w.tamper_left = w.cfg["tamper"]
+    w.forbidden = set()          # (client, phase): a manipulated descendant of the peer's message for that phase was delivered
+    w.honest_delivered = set()   # (client, phase): the peer's honest message for that phase was delivered
+
+
+def sched_deliver(w, c, msg):
+    """runs when a message is handed to the client: classify it as honest or manipulated (ghost data for the oracle)"""
+    if msg.get("type") != "message":
+        return msg
+    msg = dict(msg)
+    orig = msg.pop("_orig", None)
+    cur = {k: v for k, v in msg.items() if k != "id"}
+    if orig is None:
+        orig = cur
+    if orig.get("side") != c.boss._side:
+        key = (c.ci, orig.get("phase"))
+        if cur == orig:
+            w.honest_delivered.add(key)
+        else:
+            w.forbidden.add(key)
+    return msg
 
 
 def mon_sched(w):
@@ -295,15 +355,23 @@ def mon_sched(w):
         CTX.world = w
     for v in judge(w, dict(verifier=_REFV["v"])):
         w.flag(v["oracle"], v["sig"], v["msg"])
+    for (ci, ph) in sorted(w.forbidden, key=repr):
+        if (ci, ph) in w.honest_delivered:
+            continue
+        c = w.clients[ci]
+        if ph == "version" and any(k == "versions" for k, _ in c.app.obs):
+            w.flag("manipulated-accepted", "c%d:version" % ci, "client %d accepted a manipulated version message" % ci)
+        if ph and ph.isdigit() and len(msgs(c.app)) > int(ph):
+            w.flag("manipulated-accepted", "c%d:phase" % ci, "client %d accepted a manipulated phase-%s message" % (ci, ph))
 
 
 _REFV = {}
 
 
-def sched_cfg(victims, tamper, fine, mode="delegate"):
-    return base_cfg(mode=mode, explored=("down", "up", "api", "connect", "tamper"), coarse=[i for i in (0, 1) if i not in fine],
-                    victims=victims, tamper=tamper, extra_events=extra_events, extra_apply=extra_apply, post_init=post_init,
-                    extra_state=lambda w: w.tamper_left, monitors=[mon_sched])
+def sched_cfg(victims, tamper, fine, mode="delegate", reorder=0, late_down=()):
+    return base_cfg(late_down=tuple(late_down), mode=mode, explored=("down", "up", "api", "connect", "tamper", "reorder"), coarse=[i for i in (0, 1) if i not in fine],
+                    victims=victims, tamper=tamper, reorder=reorder, extra_events=extra_events, extra_apply=extra_apply, post_init=post_init,
+                    deliver_hook=sched_deliver, extra_state=lambda w: (w.tamper_left, w.forbidden, w.honest_delivered), monitors=[mon_sched])
 
 
 def scenarios(tier):
@@ -311,10 +379,15 @@ def scenarios(tier):
     if tier == "quick":
         S.append(mk("sched-tamper1-victim0", sched_cfg((0,), 1, (0,)), max_depth=100, max_states=400000))
         S.append(mk("sched-tamper2-dev2", sched_cfg((0, 1), 2, (0, 1)), dev_bound=2, max_depth=200))
+        # deliveries to the victim are held back as long as anything else can happen, so that the peer's later messages queue up
+        # behind its PAKE; then one reordering and one tamper operation
+        S.append(mk("sched-heldback0-reorder1-tamper1-dev2", sched_cfg((0,), 1, (0, 1), reorder=1, late_down=(0,)), dev_bound=2, max_depth=200))
+        S.append(mk("sched-heldback1-reorder1-tamper1-dev2", sched_cfg((1,), 1, (0, 1), reorder=1, late_down=(1,)), dev_bound=2, max_depth=200))
     else:
         S.append(mk("sched-tamper1-victim0", sched_cfg((0,), 1, (0,)), max_depth=100, max_states=4000000))
         S.append(mk("sched-tamper1-victim1", sched_cfg((1,), 1, (1,), mode="deferred"), max_depth=100, max_states=4000000))
         S.append(mk("sched-tamper2-dev3", sched_cfg((0, 1), 2, (0, 1)), dev_bound=3, max_depth=200))
+        S.append(mk("sched-reorder1-tamper1-victim0", sched_cfg((0,), 1, (0,), reorder=1), max_depth=100, max_states=4000000))
     return S
 
 
